@@ -4,7 +4,7 @@
    hand models that are run against the real code on every run. *)
 From Coq Require Import ZArith List Bool.
 From MomoCommon Require Import GenPrelude.
-From C09 Require Gen_UIntMath Gen_MemPoolConst Gen_MemPool PoolLayout PoolLinks PoolArith PoolLinksProofs PoolModel PoolConc PoolConcProofs PoolInv PoolAddr PoolCompl PoolOne Gen_MemPoolUInt32 PoolU32.
+From C09 Require Gen_UIntMath Gen_MemPoolConst Gen_MemPool Gen_MemPoolData PoolLayout PoolLinks PoolArith PoolLinksProofs PoolModel PoolConc PoolConcProofs PoolInv PoolAddr PoolCompl PoolOne PoolU32Prims Gen_MemPoolUInt32 PoolU32 PoolU32List.
 Import ListNotations.
 Local Open Scope Z_scope.
 
@@ -573,27 +573,120 @@ Theorem C09_check_params_prefix_refuted :
 Proof. exact PoolArith.check_params_prefix_refuted. Qed.
 Print Assumptions C09_check_params_prefix_refuted.
 
+(* MemPoolConst::GetBlockAlignment (GENERATED from the recursive constexpr function; fuel exhaustion would be the outcome Fuel):
+   for a power-of-two maxAlignment 2^k and any block size it returns the largest power of two <= maxAlignment and <= max(blockSize,1) *)
+Theorem C09_get_block_alignment_spec : forall bs k, 0 <= bs -> (k <= 63)%nat ->
+  exists i, (i <= k)%nat /\ Gen_MemPoolConst.GetBlockAlignment bs (2 ^ Z.of_nat k) = Ok (2 ^ Z.of_nat i)
+    /\ (2 ^ Z.of_nat i <= bs \/ i = O) /\ (i = k \/ bs < 2 ^ (Z.of_nat i + 1)).
+Proof. exact PoolArith.get_block_alignment_spec. Qed.
+Print Assumptions C09_get_block_alignment_spec.
+
+(* MemPoolParams(blockSize) = MemPoolParams(blockSize, GetBlockAlignment(blockSize)) with the default maxAlignment 16: the
+   alignment is a power of two <= 16 accepted by CheckBlockAlignment and the corrected parameters pass pvCheckParams *)
+Theorem C09_default_alignment_params_ok : forall C bs, 1 <= C <= 127 -> 0 <= bs <= 2 ^ 48 ->
+  exists a, Gen_MemPoolConst.GetBlockAlignment bs 16 = Ok a /\ (a = 1 \/ a = 2 \/ a = 4 \/ a = 8 \/ a = 16) /\ (a <= bs \/ a = 1)
+    /\ Gen_MemPoolConst.CheckBlockAlignment a = true
+    /\ PoolLayout.check_params C (Gen_MemPoolConst.CorrectBlockSize bs a C) a = true.
+Proof. exact PoolArith.default_alignment_params_ok. Qed.
+Print Assumptions C09_default_alignment_params_ok.
+
+(* MemPool::Data::Swap (GENERATED): manager sub-object and allocCount of the two pools change places, whether or not the managers
+   compare equal; hence "every buffer was obtained from its pool's manager" survives a Swap that also exchanges the buffer lists *)
+Theorem C09_data_swap_exchanges_manager_and_count : forall m a dm da, Gen_MemPoolData.Swap m a dm da = (dm, da, m, a).
+Proof. exact PoolArith.data_swap_spec. Qed.
+Print Assumptions C09_data_swap_exchanges_manager_and_count.
+
+Theorem C09_data_swap_keeps_buffer_owner : forall m a dm da l dl owner,
+  PoolArith.owned_by m l owner -> PoolArith.owned_by dm dl owner ->
+  let '(m', _, dm', _) := Gen_MemPoolData.Swap m a dm da in PoolArith.owned_by m' dl owner /\ PoolArith.owned_by dm' l owner.
+Proof. exact PoolArith.data_swap_keeps_owner. Qed.
+Print Assumptions C09_data_swap_keeps_buffer_owner.
+
+(* exchanging the buffer lists without the managers breaks it as soon as the managers differ *)
+Theorem C09_swap_without_managers_refuted :
+  exists m dm l dl owner, PoolArith.owned_by m l owner /\ PoolArith.owned_by dm dl owner /\
+    ~ (PoolArith.owned_by m dl owner /\ PoolArith.owned_by dm l owner).
+Proof. exact PoolArith.swap_without_managers_refuted. Qed.
+Print Assumptions C09_swap_without_managers_refuted.
+
 (* internal::MemPoolUInt32 (32-bit handles), over the GENERATED GetRealPointer / pvGetBufferSize / pvNewBuffer:
    handle <-> (buffer, offset): different handles below n*blockCount denote disjoint blocks, each inside buffer h / blockCount *)
 Theorem C09_u32_handles_disjoint : forall bc bs, 1 <= bc -> 4 <= bs -> bc * bs < 2 ^ 63 ->
-  forall mB mH mM mA n h h',
+  forall mB mN mem mH mM mA n h h',
   0 <= h < n * bc -> 0 <= h' < n * bc -> n * bc <= 4294967295 -> h <> h' ->
   (forall k k', 0 <= k < n -> 0 <= k' < n -> k <> k' -> mB k + bc * bs <= mB k' \/ mB k' + bc * bs <= mB k) ->
-  exists a a', Gen_MemPoolUInt32.GetRealPointer bc mB mH mM bs mA h = Ok a /\
-               Gen_MemPoolUInt32.GetRealPointer bc mB mH mM bs mA h' = Ok a' /\
-               0 <= h / bc < n /\ mB (h / bc) <= a /\ a + bs <= mB (h / bc) + Gen_MemPoolUInt32.pvGetBufferSize bc mB mH mM bs mA /\
+  exists a a', Gen_MemPoolUInt32.GetRealPointer bc mB mN mem mH mM bs mA h = Ok a /\
+               Gen_MemPoolUInt32.GetRealPointer bc mB mN mem mH mM bs mA h' = Ok a' /\
+               0 <= h / bc < n /\ mB (h / bc) <= a /\ a + bs <= mB (h / bc) + Gen_MemPoolUInt32.pvGetBufferSize bc mB mN mem mH mM bs mA /\
                (a + bs <= a' \/ a' + bs <= a).
 Proof. exact PoolU32.handles_disjoint. Qed.
 Print Assumptions C09_u32_handles_disjoint.
 
-(* pvNewBuffer: below the limit maxTotalBlockCount / blockCount the new buffer's handles bufferCount*blockCount + i do not wrap in
-   32 bits and are never the null handle, mBlockHead becomes the first of them; at the limit it throws *)
+(* pvNewBuffer (GENERATED, incl. the stores of its loop): below the limit maxTotalBlockCount / blockCount the new buffer's handles
+   mN*blockCount + i do not wrap in 32 bits and are never the null handle, mBlockHead becomes the first of them, the buffer is
+   appended to mBuffers, block i holds the handle of block i+1 (the last one the null handle) and no other memory cell changes;
+   at the limit it throws before changing anything *)
 Theorem C09_u32_newbuffer_handles_and_refusal : forall bc bs, 1 <= bc -> 4 <= bs -> bc * bs < 2 ^ 63 ->
-  forall mB mH mM mA buffer bufferCount,
-  0 <= bufferCount -> mM * bc <= 4294967294 ->
-  (bufferCount < mM ->
-     Gen_MemPoolUInt32.pvNewBuffer bc mB mH mM bs mA buffer bufferCount = Ok (tt, bufferCount * bc) /\
-     forall i, 0 <= i < bc -> 0 <= bufferCount * bc + i < 4294967295 /\ wrapU 32 (bufferCount * bc + i) = bufferCount * bc + i) /\
-  (mM <= bufferCount -> Gen_MemPoolUInt32.pvNewBuffer bc mB mH mM bs mA buffer bufferCount = Exn).
+  forall mB mN mem mH mM mA buffer,
+  0 <= mN -> mM * bc <= 4294967294 ->
+  (mN < mM ->
+     (exists mem', Gen_MemPoolUInt32.pvNewBuffer bc mB mN mem mH mM bs mA buffer = Ok (tt, upd mB mN buffer, mN + 1, mem', mN * bc) /\
+        (forall j, 0 <= j < bc -> mem' (buffer + bs * j) = PoolU32.nextval bc mN j) /\
+        (forall a, (forall j, 0 <= j < bc -> a <> buffer + bs * j) -> mem' a = mem a)) /\
+     forall i, 0 <= i < bc -> 0 <= mN * bc + i < 4294967295 /\ wrapU 32 (mN * bc + i) = mN * bc + i) /\
+  (mM <= mN -> Gen_MemPoolUInt32.pvNewBuffer bc mB mN mem mH mM bs mA buffer = Exn).
 Proof. exact PoolU32.newbuffer_spec. Qed.
 Print Assumptions C09_u32_newbuffer_handles_and_refusal.
+
+(* MemPoolUInt32 free list (PoolU32List.v), over the GENERATED Allocate / Deallocate / DeallocateAll / pvNewBuffer / pvClear:
+   every valid step (Allocate with a manager buffer disjoint from the owned ones, Deallocate of an allocated handle, DeallocateAll,
+   a user write into an allocated block) is executed without Stuck / Fuel and preserves the free-list invariant *)
+Theorem C09_u32_step_preserves_freelist_inv : forall bc bs M, 1 <= bc -> 4 <= bs -> bc * bs < 2 ^ 63 -> 0 <= M /\ M * bc <= 4294967294 ->
+  forall s o, PoolU32List.Inv bc bs M s -> PoolU32List.valid bc bs s o ->
+  exists s', PoolU32List.step bc bs M s o = Some s' /\ PoolU32List.Inv bc bs M s'.
+Proof. exact PoolU32List.step_Inv. Qed.
+Print Assumptions C09_u32_step_preserves_freelist_inv.
+
+Theorem C09_u32_freelist_inv_all_histories : forall bc bs M, 1 <= bc -> 4 <= bs -> bc * bs < 2 ^ 63 -> 0 <= M /\ M * bc <= 4294967294 ->
+  forall b m os s, PoolU32List.runs bc bs M (PoolU32List.init b m) os s -> PoolU32List.Inv bc bs M s.
+Proof. exact PoolU32List.Inv_all_histories. Qed.
+Print Assumptions C09_u32_freelist_inv_all_histories.
+
+Theorem C09_u32_never_stuck_all_histories : forall bc bs M, 1 <= bc -> 4 <= bs -> bc * bs < 2 ^ 63 -> 0 <= M /\ M * bc <= 4294967294 ->
+  forall b m os s o, PoolU32List.runs bc bs M (PoolU32List.init b m) os s -> PoolU32List.valid bc bs s o ->
+  PoolU32List.step bc bs M s o <> None.
+Proof. exact PoolU32List.never_stuck. Qed.
+Print Assumptions C09_u32_never_stuck_all_histories.
+
+(* what the invariant says: the cells reachable from mBlockHead form a duplicate-free list of handles below bufferCount*blockCount,
+   none of them allocated (allocated /\ free = {}), free + allocated = ALL bufferCount*blockCount handles, mAllocCount = |allocated| *)
+Theorem C09_u32_free_list_sound : forall bc bs M s, PoolU32List.Inv bc bs M s ->
+  exists fl, PoolU32List.flist bc bs (PoolU32List.mem s) (PoolU32List.B s) (PoolU32List.head s) fl /\ NoDup fl /\ NoDup (PoolU32List.alloc s) /\
+    (forall h, In h fl -> ~ In h (PoolU32List.alloc s) /\ 0 <= h < PoolU32List.n s * bc /\ h <> PoolU32List.null) /\
+    (forall h, In h (PoolU32List.alloc s) -> 0 <= h < PoolU32List.n s * bc) /\
+    Z.of_nat (length fl) + Z.of_nat (length (PoolU32List.alloc s)) = PoolU32List.n s * bc /\
+    PoolU32List.cnt s = Z.of_nat (length (PoolU32List.alloc s)).
+Proof. exact PoolU32List.free_list_sound. Qed.
+Print Assumptions C09_u32_free_list_sound.
+
+(* Allocate is either refused with the state unchanged (limit reached, nothing free) or hands out a handle that is not allocated *)
+Theorem C09_u32_no_double_hand_out : forall bc bs M, 1 <= bc -> 4 <= bs -> bc * bs < 2 ^ 63 -> 0 <= M /\ M * bc <= 4294967294 ->
+  forall s nb s', PoolU32List.Inv bc bs M s -> PoolU32List.valid bc bs s (PoolU32List.OAlloc nb) ->
+  PoolU32List.step bc bs M s (PoolU32List.OAlloc nb) = Some s' ->
+  (s' = s /\ PoolU32List.head s = PoolU32List.null /\ PoolU32List.n s = M) \/
+  (exists blk, PoolU32List.alloc s' = blk :: PoolU32List.alloc s /\ ~ In blk (PoolU32List.alloc s) /\
+     0 <= blk < PoolU32List.n s' * bc /\ blk <> PoolU32List.null).
+Proof. exact PoolU32List.alloc_fresh. Qed.
+Print Assumptions C09_u32_no_double_hand_out.
+
+(* blocks of different allocated handles: the generated GetRealPointer yields addresses >= mBlockSize apart, inside buffer h/blockCount *)
+Theorem C09_u32_allocated_blocks_disjoint : forall bc bs M, 1 <= bc -> 4 <= bs -> bc * bs < 2 ^ 63 -> 0 <= M /\ M * bc <= 4294967294 ->
+  forall s h h', PoolU32List.Inv bc bs M s -> In h (PoolU32List.alloc s) -> In h' (PoolU32List.alloc s) -> h <> h' ->
+  Gen_MemPoolUInt32.GetRealPointer bc (PoolU32List.B s) (PoolU32List.n s) (PoolU32List.mem s) (PoolU32List.head s) M bs (PoolU32List.cnt s) h =
+    Ok (PoolU32List.addr bc bs (PoolU32List.B s) h) /\
+  0 <= h / bc < PoolU32List.n s /\ PoolU32List.B s (h / bc) <= PoolU32List.addr bc bs (PoolU32List.B s) h /\
+  PoolU32List.addr bc bs (PoolU32List.B s) h + bs <= PoolU32List.B s (h / bc) + bc * bs /\
+  (PoolU32List.addr bc bs (PoolU32List.B s) h + bs <= PoolU32List.addr bc bs (PoolU32List.B s) h' \/
+   PoolU32List.addr bc bs (PoolU32List.B s) h' + bs <= PoolU32List.addr bc bs (PoolU32List.B s) h).
+Proof. exact PoolU32List.allocated_blocks_disjoint. Qed.
+Print Assumptions C09_u32_allocated_blocks_disjoint.
